@@ -7,7 +7,7 @@
           does, get_triggers per state, sizes of get_transitions for every selector combination)
     c11hsm <sep> <states> <scopes> <active> <queries>
         → per queried state path: helper access paths, is_state with and without allow_substates,
-          get_triggers as coded, the events that fire from it, the structural condition of the finding
+          get_triggers as coded, the events that fire from it
 -/
 import Handlers.Basic
 import Model.Helpers
@@ -126,8 +126,7 @@ def c11hsm : P String := do
     encL encName (isAccessH sep q) ++ encL encName (toAccessH sep q) ++
     [if isStateH active q false then 1 else 0, if isStateH active q true then 1 else 0] ++
     encL encName (getTriggersH h q) ++
-    encL encName (evNames.filter (firesIn h [] q)) ++
-    [if localAncestorDecl h [] q then 1 else 0]
+    encL encName (evNames.filter (firesIn h [] q))
   pure (joinNats out)
 
 /-- `c11trans <states> <tables> <queries (trigger?, src, dst)>` → per query the found transitions
@@ -149,17 +148,17 @@ def c11trans : P String := do
       (match f.dest with | none => [0] | some d => 1 :: encPath d)) (getTransitionsH h q.1 q.2.1 q.2.2)
   pure (joinNats out)
 
-/-- `c11wrap <override> <namespace (name, kind)> <steps (name, isStep, restEmpty)>` → `0` ok | `1` AttributeError | `2` AssertionError -/
+/-- `c11wrap <override> <namespace (name, kind)> <steps (name, isStep, restEmpty)>` → the kinds of the top-level
+helper attributes after `add_model` (0 missing, 1 user, 2 None, 3 FunctionWrapper), in the order of the request -/
 def c11wrap : P String := do
   let override ← bool
   let ns ← list (do
     let n ← nameP; let k ← nat
     pure (n, match k with | 0 => TopAttr.missing | 1 => .user | 2 => .userNone | _ => .wrapper))
   let steps ← list (do let n ← nameP; let i ← bool; let r ← bool; pure ({ name := n, isStep := i, restEmpty := r } : WStep))
-  pure (match runWrap override ns steps with
-    | .ok _ => "0"
-    | .error .attributeError => "1"
-    | .error .assertionError => "2")
+  let out := runWrap override ns steps
+  pure (joinNats (ns.map fun p => match (kget p.1 out).getD .missing with
+    | .missing => 0 | .user => 1 | .userNone => 2 | .wrapper => 3))
 
 def hC11 : List (String × Handler) :=
   [("c11flat", run c11flat), ("c11hsm", run c11hsm), ("c11trans", run c11trans), ("c11wrap", run c11wrap)]
